@@ -2,6 +2,9 @@ import Mamba.Proto
 import Mamba.Spec.Graph
 import Mamba.Spec.Distance
 import Mamba.Model.Distances
+import Mamba.Model.Components
+import Mamba.Model.Bicon
+import Mamba.Model.Subgraph
 /-! Driver for protocol `c10`:  `c10 n m u1 v1 ... um vm [p0 ... p_{n-1}]`  (the trailing permutation is used by
 the Go oracle only). Reply: one canonical line with every C10 quantity computed by the specifications of
 `Spec/Distance.lean`; `F=ok` states that the faithful models of `Distance`, `Eccentricity`, `Diameter`,
@@ -33,9 +36,33 @@ def faithful (g : G) (D : List (List Int)) : String :=
   let okDi := Model.diameterM g == Outcome.ok (diameter g)
   let okR := Model.radiusM g == Outcome.ok (radius g)
   let okG := Model.girthM g == Outcome.ok (girth g)
-  if okD && okE && okDi && okR && okG then "ok"
+  let okC1 := (List.range n).all fun v => Model.connectedComponent g v == Outcome.ok (component g v)
+  let okCs := match Model.connectedComponents g with
+    | .ok cs => sortLex cs == components g
+    | _ => false
+  if okD && okE && okDi && okR && okG && okC1 && okCs then "ok"
   else "differs:" ++ (if okD then "" else "Distance,") ++ (if okE then "" else "Eccentricity,") ++
-    (if okDi then "" else "Diameter,") ++ (if okR then "" else "Radius,") ++ (if okG then "" else "Girth,")
+    (if okDi then "" else "Diameter,") ++ (if okR then "" else "Radius,") ++ (if okG then "" else "Girth,") ++
+    (if okC1 then "" else "ConnectedComponent,") ++ (if okCs then "" else "ConnectedComponents,")
+
+/-- agreement of the faithful models of the exponential-reference functions (protocol `c10` only) -/
+def faithful2 (g : G) : String :=
+  let okB := match Model.biconnectedComponents g with
+    | .ok (bs, arts) => sortLex bs == sortLex (blocks g) && Model.sortInts arts == articulation g
+    | _ => false
+  let n := g.n
+  let bounds : List Int := (List.range (n + 3)).map fun (b : Nat) => (Int.ofNat b) - 1
+  let ic := (List.range (n + 1)).map (numInducedCycles g)
+  let ip := (List.range n).map (numInducedPaths g)
+  let okIC := bounds.all fun b => match Model.numberOfInducedCycles g b with
+    | .ok r => r.length == n + 1 && r.take (cycBound g b + 1) == ic.take (cycBound g b + 1)
+    | _ => false
+  let okIP := bounds.all fun b => match Model.numberOfInducedPaths g b with
+    | .ok r => r.length == n && r.take (pathBound g b + 1) == ip.take (pathBound g b + 1)
+    | _ => false
+  let okCy := if g.m ≤ n + 12 then Model.numberOfCycles g == Outcome.ok (numCyclesList g) else true
+  (if okB then "" else ",BiconnectedComponents") ++ (if okIC then "" else ",NumberOfInducedCycles") ++
+    (if okIP then "" else ",NumberOfInducedPaths") ++ (if okCy then "" else ",NumberOfCycles")
 
 def reply (g : G) : String :=
   let n := g.n
@@ -55,7 +82,7 @@ def reply (g : G) : String :=
   " cyc=" ++ (if g.m ≤ n + 14 then showNats (numCyclesList g) else "-") ++
   " icyc=" ++ "|".intercalate (bounds.map fun b => toString b ++ ":" ++ showNats (ic.take (cycBound g b + 1))) ++
   " ipath=" ++ "|".intercalate (bounds.map fun b => toString b ++ ":" ++ showNats (ip.take (pathBound g b + 1))) ++
-  " F=" ++ faithful g D
+  " F=" ++ faithful g D ++ faithful2 g
 
 /-- same graph with the adjacency relation stored in a table (the parsed `ofEdges` relation searches the edge list
 at every query); protocol glue, not part of any theorem -/
